@@ -111,7 +111,7 @@ pub fn def() -> PropDef {
         id: "C11",
         run,
         quick_runs: 20000,
-        thorough_runs: 300_000,
+        thorough_runs: 1_500_000,
         level: "exploration",
         rule: "a live daemon (2 rings, one or two workers, VringMutex or VringRwLock, Mutex or RwLock backend adapter) driven by the real Frontend through a control-message history; index < 584 enumerates every history of length 1..3 over {SET_FEATURES without/with PROTOCOL_FEATURES, SET_VRING_KICK, ENABLE 1, ENABLE 0, GET_VRING_BASE, RESET_DEVICE, guest kick} on ring 0; beyond that seeded histories of 1..14 steps on both rings incl. SET_VRING_CALL/BASE/NUM; after every step the harness waits for quiescence (nothing can happen later without an external event) and compares the backend's handle_event log and GET_VRING_BASE results with a reference ring state machine; distinct = distinct (workload tape, interleaving, fault trace); non-trivial = history has >= 2 steps",
         assumptions: ASSUME,
